@@ -981,7 +981,8 @@ func main() {
 	l.WriteString("\nend JsonV.Gen\n")
 	write(filepath.Join(out, "Lits.lean"), l.String())
 
-	write(filepath.Join(out, "Scope.lean"), emitScope(root, text, wire)) // scope.go (C19)
+	write(filepath.Join(out, "Scope.lean"), emitScope(root, text, wire))             // scope.go (C19)
+	write(filepath.Join(out, "Reads.lean"), emitReads(flags, wire, text, root, repo)) // reads.go (C19)
 }
 
 func write(path, content string) {
